@@ -22,6 +22,10 @@ w("C05", {"quick": c05(), "thorough": c05(),
  "outside": ["multi-step histories (covered by C04's model)", "auth fids (QTAUTH) for I/O: the statement is silent"],
  "assumptions": ["three-valued reference rule harness/c05_rules.go:refRule transcribed from the statement; 'either' cases (OEXEC/OCEXEC corners, reads through unopened fids, create of a directory with mode != OREAD) produce no assertion", SCHED]})
 
+def reset_run(wn, P):
+    return {"harness": "vxH03Reset", "args": [str(wn)], "files": KIT + ["reset_c03"], "preempt": P, "race": False, "reach": ["done"], "timeout_s": 1500,
+            "bounds": f"a Tversion in mid-session while one request is held in the implementation, {wn} more wait behind it under the same tag and one under another tag; the held request returns after the Rversion; then attach and three requests reusing the old tags; <= {P} preemptions (race detector off: a mid-session Tversion is outside C19's workloads)"}
+
 # ---------------- C03 ----------------
 def c03(e2e):
     F = KIT + ["c03"]
@@ -31,6 +35,8 @@ def c03(e2e):
     for n in ((70,) if len(e2e) <= 4 else (70, 130)):
         runs.append({"harness": "vxH03Burst", "args": [str(n)], "files": F, "preempt": 0, "free_switches": -1, "reach": ["done"],
                      "bounds": f"{n} Treads outstanding at once (more than the 64 spare reply buffers a connection keeps), all held in the implementation and then released; deterministic schedule"})
+    for wn, P in (((1, 1), (2, 0)) if len(e2e) <= 4 else ((0, 2), (1, 2), (2, 1), (3, 1))):
+        runs.append(reset_run(wn, P))
     for (n, maxpend, outcome, oneseg, P) in e2e:
         # two goroutines of the implementation answering at once necessarily write the reply buffer concurrently:
         # that workload is outside C19, so the race detector is off for it
@@ -49,13 +55,13 @@ def c07(combos, P):
     runs = []
     names = {0: "Twalk to a new fid", 1: "Topen", 2: "Tread", 3: "Tattach", 4: "Tclunk"}
     for (t, fop, var, hold, saved) in combos:
-        reach = ["unknown-tag"] if var == 3 else []
+        reach = ["unknown-tag"] if var >= 3 else []
         runs.append({"harness": "vxH07", "args": [str(t), str(fop), str(var), "true" if hold else "false", "true" if saved else "false"], "files": F, "preempt": P, "race": True,
                      "reach": reach, "timeout_s": 1500,
-                     "bounds": f"target {names[t]}; FlushOp={['none','no-op','cancels requests it was handed'][fop]}; variant={['one flush','two flushes of the target','flush of the flush','unknown old tag'][var]}; target held inside the implementation={hold}; implementation answers later (saved)={saved}; same/separate segments; all schedules of receiver, sender and workers with <= {P} preemptions"})
+                     "bounds": f"target {names[t]}; FlushOp={['none','no-op','cancels requests it was handed'][fop]}; variant={['one flush','two flushes of the target','flush of the flush','unknown old tag','a flush naming its own tag'][var]}; target held inside the implementation={hold}; implementation answers later (saved)={saved}; same/separate segments; all schedules of receiver, sender and workers with <= {P} preemptions"})
     return runs
-Q7 = [(0,0,0,False,False), (1,0,0,False,True), (2,1,0,True,False), (0,2,0,True,False), (3,0,0,False,False), (4,0,0,True,False), (0,0,3,False,False), (2,0,2,True,False)]
-T7 = [(t,f,v,h,s) for t in range(5) for f in (0,2) for v in (0,1,2) for h in (False,True) for s in (False,) if not (f == 2 and not h)] + [(1,0,0,False,True), (2,1,0,True,True), (0,0,3,False,False)]
+Q7 = [(0,0,0,False,False), (1,0,0,False,True), (2,1,0,True,False), (0,2,0,True,False), (3,0,0,False,False), (4,0,0,True,False), (0,0,3,False,False), (2,0,2,True,False), (0,0,4,False,False), (0,1,4,False,False)]
+T7 = [(t,f,v,h,s) for t in range(5) for f in (0,2) for v in (0,1,2) for h in (False,True) for s in (False,) if not (f == 2 and not h)] + [(1,0,0,False,True), (2,1,0,True,True), (0,0,3,False,False), (0,0,4,False,False), (0,2,4,False,False)]
 w("C07", {"quick": c07(Q7, 1), "thorough": c07(T7, 1) + c07([(0,0,0,False,False), (2,2,0,True,False)], 2),
  "outside": ["flushes inside shared-tag groups", "a target that never returns from the implementation (the harness always releases it eventually)", "more than 2 preemptions"],
  "assumptions": [SCHED, "a FlushOp implementation calls req.Flush() only for requests it has been handed (it synchronises with its own workers)", "an implementation that answers a saved request later hands it over through a synchronising channel"]})
@@ -105,6 +111,9 @@ def c06(msizes, auths, frameN, frameMsize, unpackN):
     for dotu in ("false", "true"):
         runs.append({"harness": "vxH06Reneg", "args": [dotu], "files": ["api", "ref_wire", "kit_srv", "kit_net", "kit_fs", "reneg_c06"], "preempt": 0, "free_switches": -1, "reach": ["done"],
                      "bounds": f"Ufs session: Tversion with symbolic msize 24..40, a second Tversion with any 32-bit msize, attach, open the root directory, Tread with any 32-bit count, Tstat; dotu={dotu}"})
+    for fop in ("false", "true"):
+        runs.append({"harness": "vxH06Flush", "args": [fop], "files": KIT + ["flush_c06"], "preempt": 1, "reach": ["done"],
+                     "bounds": f"live session with a Tread held inside the implementation: a Tflush with any tag and any old tag (the held request, itself, nothing), FlushOp={fop}; the held request returns, a further request follows; <= 1 preemption"})
     for dotu in ("false", "true"):
         runs.append({"harness": "vxH06UfsAuth", "args": [dotu], "files": ["api", "ref_wire", "kit_srv", "kit_net", "kit_fs", "reneg_c06"], "preempt": 0, "free_switches": -1, "reach": ["done"],
                      "bounds": f"Ufs session: Tauth with any afid, attach, attach naming an existing fid as afid, attach with a 2-byte symbolic aname, Tclunk of any fid, hang-up with fids alive; dotu={dotu}"})
@@ -141,11 +150,14 @@ def c13s(combos):
     F = KIT + ["c13_seg_srv"]
     return [{"harness": "vxH13SrvSession", "args": [str(m), "true" if d else "false", str(n), str(c)], "files": F, "preempt": 0, "free_switches": -1, "reach": ["done"], "timeout_s": 2400,
              "bounds": f"whole session as one stream on a .u server with msize 8192: Tversion(msize {m}, {'9P2000.u' if d else '9P2000'}) and {n} independent Tattach requests with symbolic attach names, delivered under {'one byte at a time' if c < 0 else f'every choice of {c} cut position(s)'} vs. one segment"} for (m, d, n, c) in combos]
+def c13o(combos):
+    return [{"harness": "vxH13SrvOversize", "args": [str(m), str(c)], "files": KIT + ["c13_seg_srv", "over_c13"], "preempt": 0, "free_switches": -1, "reach": ["done"], "timeout_s": 1500,
+             "bounds": f"server receive loop, msize {m}: two requests, a well-formed frame of msize+17 bytes, another request; one segment and {'one byte at a time' if c < 0 else f'every choice of {c} cut position(s)'}: the oversize frame and what follows it are never executed or answered and the connection is dropped, under every segmentation"} for (m, c) in combos]
 def c13e(ms):
     return [{"harness": "vxH13SrvEdge", "args": [str(m)], "files": KIT + ["c13_seg_srv"], "preempt": 0, "free_switches": -1, "reach": ["done"],
              "bounds": f"server receive loop, msize {m}: a stream laid out so that a message boundary falls 0..4 bytes before the end of the 8*msize receive buffer, delivered in one segment (the read fills the buffer to its last byte) vs. message by message"} for m in ms]
-w("C13", merge_frag({"quick": c13([(32, 15, 3, 1), (32, 7, 3, 2), (32, 15, 3, -1), (64, 6, 9, 1)]) + c13s([(32, False, 3, 1), (32, True, 3, 1), (64, False, 4, -1)]) + c13e([32, 64]),
- "thorough": c13([(32, 30, 3, 1), (32, 15, 3, 2), (32, 5, 3, 3), (32, 30, 3, -1), (64, 30, 9, 1), (64, 12, 9, 2)]) + c13s([(32, False, 12, 1), (32, True, 12, 1), (32, False, 4, 2), (64, True, 6, 2), (32, False, 12, -1)]) + c13e([32, 48, 64, 100, 128]),
+w("C13", merge_frag({"quick": c13([(32, 15, 3, 1), (32, 7, 3, 2), (32, 15, 3, -1), (64, 6, 9, 1)]) + c13s([(32, False, 3, 1), (32, True, 3, 1), (64, False, 4, -1)]) + c13e([32, 64]) + c13o([(32, 1), (32, -1)]),
+ "thorough": c13([(32, 30, 3, 1), (32, 15, 3, 2), (32, 5, 3, 3), (32, 30, 3, -1), (64, 30, 9, 1), (64, 12, 9, 2)]) + c13s([(32, False, 12, 1), (32, True, 12, 1), (32, False, 4, 2), (64, True, 6, 2), (32, False, 12, -1)]) + c13e([32, 48, 64, 100, 128]) + c13o([(32, 1), (32, 2), (32, -1), (64, 1), (64, -1)]),
  "outside": ["4 or more independent cuts on long streams; msize > 64", "interleavings of the worker goroutines (covered by C03/C08)"],
  "assumptions": [SCHED]}, "C13_clnt.frag.json"))
 
